@@ -22,6 +22,7 @@ import (
 	"k8s.io/apimachinery/pkg/types"
 	"sigs.k8s.io/controller-runtime/pkg/client"
 
+	autoscalingv1beta1 "sigs.k8s.io/karpenter/pkg/apis/autoscaling/v1beta1"
 	v1 "sigs.k8s.io/karpenter/pkg/apis/v1"
 	"sigs.k8s.io/karpenter/pkg/cloudprovider"
 	"sigs.k8s.io/karpenter/pkg/controllers/disruption"
@@ -153,6 +154,36 @@ func apiEntries(e *Env, out Snapshot) (Snapshot, error) {
 			add("DeviceClass", &dcs.Items[i])
 		}
 	}
+	if e.VPods != nil {
+		var cbs autoscalingv1beta1.CapacityBufferList
+		if err := c.List(e.Ctx, &cbs); err != nil {
+			return nil, err
+		}
+		for i := range cbs.Items {
+			add("CapacityBuffer", &cbs.Items[i])
+		}
+		var pts corev1.PodTemplateList
+		if err := c.List(e.Ctx, &pts); err != nil {
+			return nil, err
+		}
+		for i := range pts.Items {
+			add("PodTemplate", &pts.Items[i])
+		}
+		var deps appsv1.DeploymentList
+		if err := c.List(e.Ctx, &deps); err != nil {
+			return nil, err
+		}
+		for i := range deps.Items {
+			add("Deployment", &deps.Items[i])
+		}
+		var rss appsv1.ReplicaSetList
+		if err := c.List(e.Ctx, &rss); err != nil {
+			return nil, err
+		}
+		for i := range rss.Items {
+			add("ReplicaSet", &rss.Items[i])
+		}
+	}
 	var nss corev1.NamespaceList
 	if err := c.List(e.Ctx, &nss); err != nil {
 		return nil, err
@@ -163,13 +194,29 @@ func apiEntries(e *Env, out Snapshot) (Snapshot, error) {
 	return out, nil
 }
 
+// isPhantom: a state node with neither a Node nor a NodeClaim (nothing the informers deliver creates one; most of its
+// accessors would dereference nil)
+func isPhantom(n *state.StateNode) bool { return n.Node == nil && n.NodeClaim == nil }
+
 func liveNodes(cl *state.Cluster) []*state.StateNode {
 	var ns []*state.StateNode
 	for n := range cl.Nodes() {
-		ns = append(ns, n)
+		if !isPhantom(n) {
+			ns = append(ns, n)
+		}
 	}
 	sort.Slice(ns, func(i, j int) bool { return ns[i].ProviderID() < ns[j].ProviderID() })
 	return ns
+}
+
+func phantomNodes(cl *state.Cluster) int {
+	k := 0
+	for n := range cl.Nodes() {
+		if isPhantom(n) {
+			k++
+		}
+	}
+	return k
 }
 
 func nominatedUntil(n *state.StateNode) int64 {
@@ -183,6 +230,11 @@ func nominatedUntil(n *state.StateNode) int64 {
 func clusterEntries(e *Env, out Snapshot) Snapshot {
 	cl := e.W.Cluster
 	out = structFields(out, "cluster", "", cl, nil, clusterLinks)
+	// which nodes the cluster state tracks (the per-node entries below describe them one by one)
+	out = append(out, Entry{"cluster", "", "nodes.len", fmt.Sprint(len(liveNodes(cl)))})
+	if k := phantomNodes(cl); k > 0 {
+		out = append(out, Entry{"cluster", "", "nodes.withoutNodeAndNodeClaim", fmt.Sprint(k)})
+	}
 	for _, n := range liveNodes(cl) {
 		pid := n.ProviderID()
 		out = structFields(out, "node", pid, n, nil, nil)
@@ -330,6 +382,7 @@ func (e *Env) Take(cands []*disruption.Candidate) (Snapshot, error) {
 	out = clusterEntries(e, out)
 	out = providerEntries(e, out)
 	out = draEntries(e, out)
+	out = virtualPodEntries(e, out)
 	out = e.inputEntries(cands, out)
 	return out.sorted(), nil
 }
